@@ -257,6 +257,12 @@ fn wrong_token_diag(out: &Outcome, wire_id: i64) -> Option<String> {
 }
 
 pub fn run_case(i: u64, rng: &mut Rng, rep: &mut Report, opts: MuxOpts, lane: &str, verbose: bool) {
+    run_case_on(i, rng, rep, opts, lane, verbose, false)
+}
+
+/// `mt`: run on a multi-thread runtime with real OS worker threads and real time (true
+/// parallelism between handles, driver and server) instead of the paused-clock runtime.
+pub fn run_case_on(i: u64, rng: &mut Rng, rep: &mut Report, opts: MuxOpts, lane: &str, verbose: bool, mt: bool) {
     let nh = 1 + rng.usize(6);
     let mut programs: Vec<Vec<ClientOp>> = vec![];
     let mut tok = i * 1000;
@@ -274,9 +280,15 @@ pub fn run_case(i: u64, rng: &mut Rng, rep: &mut Report, opts: MuxOpts, lane: &s
         programs.push(p);
     }
     let srng = rng.fork();
-    let rt = runtime(rng.next());
+    let rt = if mt {
+        let _ = rng.next();
+        tokio::runtime::Builder::new_multi_thread().worker_threads(2 + rng.usize(3)).enable_time().build().expect("mt runtime")
+    } else {
+        runtime(rng.next())
+    };
     let progs = programs.clone();
-    let (results, log, drv, gauges) = rt.block_on(async move {
+    let guarded_run = rt.block_on(async move {
+        tokio::time::timeout(std::time::Duration::from_secs(if mt { 60 } else { 3600 * 48 }), async move {
         let c = connect();
         let gauges = c.ldap.verif_gauges();
         let srv = tokio::spawn(mux_server(c.server, srng, opts));
@@ -303,7 +315,16 @@ pub fn run_case(i: u64, rng: &mut Rng, rep: &mut Report, opts: MuxOpts, lane: &s
         let log = srv.await.unwrap_or_default();
         let drv = c.driver.await;
         (results, log, drv, gauges)
+        }).await
     });
+    let (results, log, drv, gauges) = match guarded_run {
+        Ok(x) => x,
+        Err(_) => {
+            // real-time lane only: a wall-clock expiry is not a verdict
+            rep.inconclusive(format!("lane {} case {}: wall-clock guard expired", lane, i));
+            return;
+        }
+    };
     let replay = json!({"lane":lane,"case":i});
     let mut routed = 0u64;
     for (p, outs) in programs.iter().zip(&results) {
@@ -412,6 +433,14 @@ fn trunc<T: std::fmt::Debug>(t: &T) -> String {
     format!("{:?}", t).chars().take(500).collect()
 }
 
+/// The routing workload on multi-thread runtimes (2-4 OS worker threads, real time).
+pub fn routing_threads(ctx: &Ctx) -> Report {
+    let n = ctx.n(3_000, 3_000_000);
+    let mut c2 = ctx.clone();
+    c2.threads = ctx.threads.min(4);
+    par_cases(&c2, "routing_threads", n, ctx.secs(20, 600), |i, rng, rep| run_case_on(i, rng, rep, MuxOpts { nobody: true, hostile_ids: false }, "routing_threads", false, true))
+}
+
 pub fn routing(ctx: &Ctx) -> Report {
     let n = ctx.n(40_000, 50_000_000);
     par_cases(ctx, "routing", n, ctx.secs(30, 700), |i, rng, rep| run_case(i, rng, rep, MuxOpts { nobody: true, hostile_ids: false }, "routing", false))
@@ -431,6 +460,10 @@ pub fn replay(ctx: &Ctx, v: &Value) -> Report {
         let mut rng = case_rng(ctx.seed, &lane, i);
         if lane == "abandoned" {
             run_abandon_case(i, &mut rng, &mut rep, true);
+            return rep;
+        }
+        if lane == "routing_threads" {
+            run_case_on(i, &mut rng, &mut rep, MuxOpts { nobody: true, hostile_ids: false }, &lane, true, true);
             return rep;
         }
         run_case(i, &mut rng, &mut rep, MuxOpts { nobody: true, hostile_ids: lane == "hostile_ids" }, &lane, true);
